@@ -1209,6 +1209,7 @@ impl Scenario for PerKey {
                         outer_written = false;
                     }
                 }
+                crate::world::audit_state(&keep.state, false);
             }
         });
         let k = ManuallyDrop::into_inner(keep);
